@@ -7,6 +7,10 @@
 """
 import hashlib, struct
 
+class RewriteError(Exception):
+    pass
+
+
 SHF_COMPRESSED = 0x800
 SHT_PROGBITS, SHT_STRTAB, SHT_RELA, SHT_NOBITS, SHT_REL = 1, 3, 4, 8, 9
 
@@ -28,6 +32,8 @@ class Elf:
          self.e_shstrndx) = struct.unpack_from(self.ehfmt, img, 16)
         self.shsize = struct.calcsize(self.shfmt)
         self.secs = []
+        if self.e_shoff + self.e_shnum * self.e_shentsize > len(img) or (self.e_shnum and self.e_shstrndx >= self.e_shnum):
+            raise RewriteError('section header table outside the file')
         for i in range(self.e_shnum):
             f = struct.unpack_from(self.shfmt, img, self.e_shoff + i * self.e_shentsize)
             self.secs.append(dict(zip(('sh_name', 'sh_type', 'sh_flags', 'sh_addr', 'sh_offset', 'sh_size',
@@ -99,7 +105,8 @@ def rewrite(elf, edits=None, add=(), drop=(), filler=b'', junk_after=b''):
         if s['sh_type'] in (SHT_REL, SHT_RELA) or s['sh_flags'] & 0x40:      # SHF_INFO_LINK
             s['sh_info'] = remap.get(s['sh_info'], 0)
     strndx = remap.get(elf.e_shstrndx)
-    assert strndx is not None
+    if strndx is None or not secs:
+        raise RewriteError('no usable section name table')
     tab = bytearray(b'\0')
     for s in secs:
         s['sh_name'] = len(tab)
